@@ -6,10 +6,10 @@
 (* follow (used only to report drift, never for the verdict).                 *)
 EXTENDS Naturals, Sequences, TLC, Json
 
-CONSTANTS Offsets   \* "all" | "sampled"
+CONSTANTS Offsets,  \* "all" | "sampled"
+          Shapes    \* object shapes: "small", "nested", "pixel" (quick), "large" (thorough, sampled offsets)
 
 TS == {"ivrle", "evrle", "evrbe", "deflated"}
-Shapes == {"small", "nested", "pixel"}
 FailKinds == {"error", "zero"}
 
 WriteOps == {"ds", "file_all", "file_ds"}
